@@ -901,12 +901,25 @@ func ruleFlushRange(c *Ctx, rule string) {
 		return
 	}
 	var from, to *ssa.Call
+	addend := int64(0)
 	var findIdx func(v ssa.Value, d int) *ssa.Call
 	findIdx = func(v ssa.Value, d int) *ssa.Call {
 		if d > 4 {
 			return nil
 		}
 		switch x := v.(type) {
+		case *ssa.BinOp:
+			if x.Op == token.ADD || x.Op == token.SUB {
+				if k, ok := constIntVal(x.Y); ok {
+					if r := findIdx(x.X, d+1); r != nil {
+						if x.Op == token.SUB {
+							k = -k
+						}
+						addend += k
+						return r
+					}
+				}
+			}
 		case *ssa.Call:
 			if x.Call.StaticCallee() == tubeIdx {
 				return x
@@ -920,14 +933,17 @@ func ruleFlushRange(c *Ctx, rule string) {
 		}
 		return nil
 	}
+	fromAdd := int64(0)
 	for i, pred := range phi.Block().Preds {
 		if !pred.Dominates(phi.Block()) || i >= len(phi.Edges) {
 			continue
 		}
+		addend = 0
 		if r := findIdx(phi.Edges[i], 0); r != nil {
-			from = r
+			from, fromAdd = r, addend
 		}
 	}
+	addend = 0
 	if ifi, ok := phi.Block().Instrs[len(phi.Block().Instrs)-1].(*ssa.If); ok {
 		if bo, ok := ifi.Cond.(*ssa.BinOp); ok && bo.Op == token.LEQ {
 			to = findIdx(bo.Y, 0)
@@ -935,6 +951,10 @@ func ruleFlushRange(c *Ctx, rule string) {
 	}
 	if from == nil || to == nil {
 		c.und(rule, key, fl.Pos(), "the bounds of the flush loop are not tubeIndex(...) values with an inclusive upper bound")
+		return
+	}
+	if fromAdd != 0 {
+		c.bad(rule, key, from.Pos(), fmt.Sprintf("the flush starts %+d tube(s) away from the tube of the lowest reachable diagonal: one higher and that tube — still active unless the final tubeEnd happened to retire exactly it — is never flushed and its pending run is dropped; one lower and a retired tube's ring slot may be that of the highest active tube", fromAdd))
 		return
 	}
 	gotFrom, gotTo := linOf(from.Call.Args[1], env), linOf(to.Call.Args[1], env)
